@@ -179,6 +179,7 @@ type GuardSpec struct {
 	Locked  map[string]bool   // functions whose callers must hold Mu (entry lockset = {Mu}); call sites are checked
 	Opts    lockOpts
 	WriteOnly bool // only writes need the lock (reads are atomic/immutable-after-init)
+	ReturnsHolding map[string]string // function short name -> reason it legitimately returns with Mu held
 }
 
 // GuardedBy (R4): every access to Fields inside Scope happens with Mu held.
@@ -281,6 +282,16 @@ func (c *Ctx) GuardedBy(g GuardSpec) {
 				}
 			}
 		}
+	}
+	// every acquire is released on all exits: no function of the scope can return still holding Mu
+	for _, fn := range g.Scope {
+		if r, ok := g.Exempt[shortName(fn)]; ok && r != "" {
+			continue
+		}
+		if g.ReturnsHolding[shortName(fn)] != "" {
+			continue
+		}
+		c.lockBalance(g.Label, g.Mu, fn)
 	}
 	// call sites of "caller must hold" helpers
 	for lname := range g.Locked {
@@ -394,4 +405,98 @@ func isWriteUse(in ssa.Instruction) bool {
 
 func isRangeFuncBody(fn *ssa.Function) bool {
 	return strings.Contains(fn.Synthetic, "range-over-func")
+}
+
+// lockBalance: may-analysis (union at joins) of "mu acquired in fn and not yet
+// released"; a Return reached in that state is reported. `defer mu.Unlock()`
+// (directly or inside a deferred closure) releases at rundefers.
+func (c *Ctx) lockBalance(label string, mu *types.Var, fn *ssa.Function) {
+	acquires := false
+	deferredUnlock := false
+	var unlockIn func(f *ssa.Function) bool
+	unlockIn = func(f *ssa.Function) bool {
+		for _, b := range f.Blocks {
+			for _, in := range b.Instrs {
+				if call, ok := in.(*ssa.Call); ok {
+					if mv, d := mutexOfCall(&call.Call); mv != nil && sameField(mv, mu) && d < 0 {
+						return true
+					}
+				}
+			}
+		}
+		return false
+	}
+	for _, b := range fn.Blocks {
+		for _, in := range b.Instrs {
+			switch x := in.(type) {
+			case *ssa.Call:
+				if mv, d := mutexOfCall(&x.Call); mv != nil && sameField(mv, mu) && d > 0 {
+					acquires = true
+				}
+			case *ssa.Defer:
+				if mv, d := mutexOfCall(&x.Call); mv != nil && sameField(mv, mu) && d < 0 {
+					deferredUnlock = true
+				}
+				if cl := x.Call.StaticCallee(); cl != nil && cl.Parent() == fn && unlockIn(cl) {
+					deferredUnlock = true
+				}
+				if mc, ok := x.Call.Value.(*ssa.MakeClosure); ok {
+					if cf, ok := mc.Fn.(*ssa.Function); ok && unlockIn(cf) {
+						deferredUnlock = true
+					}
+				}
+			}
+		}
+	}
+	if !acquires {
+		return
+	}
+	c.inst(fmt.Sprintf("%s: lock balance of %s in %s", label, mu.Name(), shortName(fn)))
+	c.nontrivial(label + "balance" + shortName(fn))
+	n := len(fn.Blocks)
+	in := make([]bool, n)  // may hold at block entry
+	seen := make([]bool, n)
+	seen[0] = true
+	work := []*ssa.BasicBlock{fn.Blocks[0]}
+	type leak struct{ at ssa.Instruction }
+	var leaks []ssa.Instruction
+	for len(work) > 0 {
+		b := work[0]
+		work = work[1:]
+		held := in[b.Index]
+		for _, ins := range b.Instrs {
+			switch x := ins.(type) {
+			case *ssa.Call:
+				if mv, d := mutexOfCall(&x.Call); mv != nil && sameField(mv, mu) {
+					held = d > 0
+				}
+			case *ssa.RunDefers:
+				if deferredUnlock {
+					held = false
+				}
+			case *ssa.Return:
+				if held {
+					leaks = append(leaks, ins)
+				}
+			}
+		}
+		if blockNoReturn(b) {
+			continue
+		}
+		for _, s := range b.Succs {
+			if !seen[s.Index] || (held && !in[s.Index]) {
+				seen[s.Index] = true
+				in[s.Index] = in[s.Index] || held
+				work = append(work, s)
+			}
+		}
+	}
+	reported := map[ssa.Instruction]bool{}
+	for _, l := range leaks {
+		if reported[l] {
+			continue
+		}
+		reported[l] = true
+		c.violate(l, fn, label+"/lock-balance", fmt.Sprintf("%s: %s can return still holding %s (an acquire is not released on this exit)", label, shortName(fn), mu.Name()), nil)
+	}
 }
